@@ -39,6 +39,8 @@ def jobs(tier):
         out = hexstep.step_jobs(tier, checks, "K10", "V12", seed, configs)
     # multi-operation batches on a pruning trie, committed or aborted by an exception, then a later direct write
     out += hexbatch.batch_jobs(tier, ["exact", "usable"], seed, [True], exits="all")
+    if tier != "quick":      # symbolic value content: the solver explores equal / unequal to the stored long value (shared vs unshared leaf)
+        out += hexstep.symval_jobs(tier, ["root", "exact"], seed, [True])
     return out
 
 
